@@ -66,6 +66,39 @@ theorem com_is_weighted_mean (mask : Option (Pattern ℝ)) (b : Nat) (hb : 0 < b
     obtain ⟨row, hrow, hIr⟩ := List.mem_flatten.mp hI
     rw [comOne_eq_spec h w _ (hrect row hrow I hIr).1]
 
+/-- **Scale invariance** (ℝ): the centre of mass does not depend on the unit of the intensities.
+Multiplying every pattern `I_i` by its own factor `c_i ≠ 0` (a whole dataset in tiny units, or a
+few much weaker patterns inside a normal dataset) changes nothing in what the three paths
+return — for every mask, every batch size, no rectangularity assumption. -/
+theorem com_scale_invariant (mask : Option (Pattern ℝ)) (b : Nat) (hb : 0 < b) (h w : Nat)
+    (I4 : List (List (Pattern ℝ × ℝ))) (hc : ∀ row ∈ I4, ∀ p ∈ row, p.2 ≠ 0) :
+    let plain := I4.map (fun row => row.map (fun p => p.1))
+    let scaled := I4.map (fun row => row.map (fun p => scale2 p.2 p.1))
+    comNumpyLooped mask h w scaled = comNumpyLooped mask h w plain ∧
+    comNumpyVectorised mask h w scaled = comNumpyVectorised mask h w plain ∧
+    comTorchBatched b h w scaled.flatten = comTorchBatched b h w plain.flatten := by
+  intro plain scaled
+  have hloop : comNumpyLooped mask h w scaled = comNumpyLooped mask h w plain := by
+    rw [comNumpyLooped_eq, comNumpyLooped_eq]
+    simp only [plain, scaled, List.map_map]
+    congr 1 <;>
+    · apply List.map_congr_left
+      intro row hrow
+      simp only [Function.comp_def, List.map_map]
+      apply List.map_congr_left
+      intro p hp
+      rw [maskWith_scale, comOne_scale _ (hc row hrow p hp)]
+  refine ⟨hloop, ?_, ?_⟩
+  · rw [comNumpyVectorised_eq, comNumpyVectorised_eq, ← comNumpyLooped_eq, ← comNumpyLooped_eq]
+    exact hloop
+  · rw [comTorchBatched_eq b hb, comTorchBatched_eq b hb]
+    simp only [plain, scaled, ← List.map_flatten, List.map_map]
+    apply List.map_congr_left
+    intro p hp
+    obtain ⟨row, hrow, hpr⟩ := List.mem_flatten.mp hp
+    simp only [Function.comp_def]
+    rw [comOne_scale _ (hc row hrow p hpr)]
+
 /-- what `comSpec` means on a 2 × 2 pattern: rows weighted 0, 1; columns weighted 0, 1 -/
 example (a b c d : ℝ) : comSpec [[a, b], [c, d]] =
     ((0 * (a + (b + 0)) + (1 * (c + (d + 0)) + 0)) / (a + (b + 0) + (c + (d + 0) + 0)),
